@@ -73,6 +73,48 @@ theorem mkReduction_feasible (tol : Rat) (scale : Bool) (lb ub : List (Lim Rat))
     (mkReduction tol scale lb ub).feasible =
       (((mkReduction tol scale lb ub).lb.zip (mkReduction tol scale lb ub).ub).all fun p => coordFeasible p.1 p.2) := rfl
 
+/-! ## the rebuilt point has one coordinate per variable, and fixed variables sit at their value -/
+
+theorem embed_go_length (fs : List Bool) : ∀ (vs xs fa sh : List Rat), vs.length = fs.length →
+    xs.length = (fs.filter fun b => !b).length → fa.length = xs.length → sh.length = xs.length →
+    (embed.go fs vs xs fa sh).length = fs.length := by
+  induction fs with
+  | nil => intro vs xs fa sh _ _ _ _; simp [embed.go]
+  | cons b t ih =>
+    intro vs xs fa sh hv hx hf hs
+    cases vs with
+    | nil => simp at hv
+    | cons v vs =>
+      cases b with
+      | true =>
+        simp only [embed.go, List.length_cons, Nat.add_right_cancel_iff]
+        exact ih vs xs fa sh (by simpa using hv) (by simpa using hx) hf hs
+      | false =>
+        cases xs with
+        | nil => simp at hx
+        | cons x xs =>
+          cases fa with
+          | nil => simp at hf
+          | cons f fa =>
+            cases sh with
+            | nil => simp at hs
+            | cons s0 sh =>
+              simp only [embed.go, List.length_cons, Nat.add_right_cancel_iff]
+              exact ih vs xs fa sh (by simpa using hv) (by simpa using hx) (by simpa using hf) (by simpa using hs)
+
+/-- **No coordinate is lost.**  For a well-formed reduction (one flag, bound pair and fixed value per variable, one
+factor and shift per free variable) and a reduced point with one entry per free variable, `build_x` returns one
+coordinate per variable — so `buildX_mem` speaks about every coordinate of the user's point. -/
+theorem buildX_length (R : Reduction Rat) (x : List Rat) (h1 : R.fixedVals.length = R.fixed.length)
+    (h2 : x.length = (R.fixed.filter fun b => !b).length) (h3 : R.factor.length = x.length) (h4 : R.shift.length = x.length)
+    (h5 : R.lb.length = R.fixed.length) (h6 : R.ub.length = R.fixed.length) :
+    (buildX R x).length = R.fixed.length := by
+  have he : (embed R x).length = R.fixed.length := embed_go_length R.fixed R.fixedVals x R.factor R.shift h1 h2 h3 h4
+  unfold buildX
+  split
+  · simp [List.length_zip, he, h5, h6]
+  · exact he
+
 /-! ## trial points -/
 
 /-- a step within the bounds shifted by the centre gives a trial point within the bounds -/
